@@ -2,6 +2,7 @@ package h
 
 import (
 	"fmt"
+	"strings"
 	"testing"
 	"time"
 
@@ -35,6 +36,7 @@ type C17Scn struct {
 	IdleNs   int64         `json:"idle_ns"` // 0 = default
 	Export   bool          `json:"export"`  // server created by AbsfsNFS.Export (Close/Unexport stop it)
 	Workers  int           `json:"workers"`
+	Allowed  []string      `json:"allowed,omitempty"` // AllowedIPs: clients from 10.0.0.3 are then refused at accept time
 	Clients  []C17Client   `json:"clients"`
 	Admins   [][]C17Admin  `json:"admins"`
 	Stalls   []simfs.Fault `json:"stalls,omitempty"`
@@ -164,7 +166,7 @@ func runC17(t *testing.T, scAny any, trace bool) *Outcome {
 			w.FS.AddFault(f)
 		}
 		idle := time.Duration(sc.IdleNs)
-		opts := absnfs.ExportOptions{MaxConnections: sc.MaxConns, IdleTimeout: idle, MaxWorkers: sc.Workers, EnableDirCache: true}
+		opts := absnfs.ExportOptions{MaxConnections: sc.MaxConns, IdleTimeout: idle, MaxWorkers: sc.Workers, EnableDirCache: true, AllowedIPs: sc.Allowed}
 		var srv *absnfs.Server
 		if sc.Export {
 			nfs, err := absnfs.New(w.FS.View(), opts)
@@ -188,6 +190,16 @@ func runC17(t *testing.T, scAny any, trace bool) *Outcome {
 		}
 		effIdle := absnfs.VerifTuning(w.NFS).IdleTimeout
 		effMax := absnfs.VerifTuning(w.NFS).MaxConnections
+		// a runtime change of IdleTimeout takes effect at the reaper's next tick (at most the old
+		// check interval later); idle periods that straddle the change are not judged
+		var idleNow, idleChangedAt, idleSettledAt simrt.Counter
+		idleNow.Store(int64(effIdle))
+		excluded := func(addr string) bool {
+			if len(sc.Allowed) == 0 {
+				return false
+			}
+			return !ipAllowed(sc.Allowed, addr[:strings.LastIndex(addr, ":")])
+		}
 		st := &c17State{}
 		start := simrt.Now()
 		now := func() time.Duration { return simrt.Now() - start }
@@ -220,6 +232,17 @@ func runC17(t *testing.T, scAny any, trace bool) *Outcome {
 					return
 				}
 				cl.Timeout = 40 * time.Second
+				if excluded(c.Addr) {
+					// refused by the address filter: must not be served and must not stay counted
+					rep, err := cl.RawCall(nfsclient.ProgNFS, 3, 0, nil)
+					o.Tick()
+					if err == nil && rep != nil && rep.Stat == nfsclient.MsgAccepted {
+						o.Vio("C17.excluded-address-served", "", "client %d from %s is outside AllowedIPs %v but its call was accepted", ci, c.Addr, sc.Allowed)
+					}
+					cl.Close()
+					simrt.Probe("connection_refused_by_address_filter")
+					return
+				}
 				cc := &c17Conn{cl: cl, lastAct: now()}
 				st.add(cc)
 				defer func() { cc.closed = true; cl.Close() }()
@@ -235,8 +258,14 @@ func runC17(t *testing.T, scAny any, trace bool) *Outcome {
 							simrt.Probe("idle_connection_closed_by_server")
 						}
 						// bounded liveness: an idle connection is closed by the server
-						if cc.answered && !cl.Dead && d > 2*effIdle+100*time.Millisecond && !cl.Conn.PeerClosed() {
-							o.Vio("C17.idle-connection-not-reaped", "", "client %d step %d: connection idle since t=%v for %v with IdleTimeout=%v is still open on the server side at t=%v", ci, si, idleFrom, d, effIdle, now())
+						curIdle := time.Duration(idleNow.Load())
+						settled := idleChangedAt.Load() == 0 || int64(idleFrom) >= idleSettledAt.Load()
+						if cc.answered && !cl.Dead && settled && d > 2*curIdle+100*time.Millisecond && !cl.Conn.PeerClosed() {
+							facts := ""
+							if idleChangedAt.Load() != 0 {
+								facts = "after-runtime-change"
+							}
+							o.Vio("C17.idle-connection-not-reaped", facts, "client %d step %d: connection idle since t=%v for %v with IdleTimeout=%v is still open on the server side at t=%v", ci, si, idleFrom, d, curIdle, now())
 						}
 						continue
 					case "close":
@@ -306,7 +335,7 @@ func runC17(t *testing.T, scAny any, trace bool) *Outcome {
 							simrt.Probe("connection_refused_service_at_limit")
 						}
 						// a connection that was being served and active is not closed without reason
-						if cc.answered && adminStarted.Load() == 0 && maxStall == 0 && sentAt-cc.lastAct < effIdle/2 && sentAt-cc.lastAct < 10*time.Second {
+						if cc.answered && adminStarted.Load() == 0 && idleChangedAt.Load() == 0 && maxStall == 0 && sentAt-cc.lastAct < effIdle/2 && sentAt-cc.lastAct < 10*time.Second {
 							o.Vio("C17.active-connection-closed", "op="+stp.Op, "client %d step %d: connection answered before and active %v ago (IdleTimeout %v) got no reply to %s: %v", ci, si, sentAt-cc.lastAct, effIdle, stp.Op, err)
 						}
 						return
@@ -350,6 +379,20 @@ func runC17(t *testing.T, scAny any, trace bool) *Outcome {
 							o.Vio("C17.connections-counted-after-stop", "", "admin %d: after Stop returned connCount=%d tracked=%d", ai, cc, mm)
 						}
 						stopReturned.Store(int64(now()) + 1)
+					case "lower-idle":
+						// the reaper re-reads the setting at its next tick, i.e. at most one old check interval later
+						old := time.Duration(idleNow.Load())
+						oldInterval := old / 2
+						if oldInterval > time.Minute {
+							oldInterval = time.Minute
+						}
+						nw := 200 * time.Millisecond
+						w.NFS.UpdateTuningOptions(func(tu *absnfs.TuningOptions) { tu.IdleTimeout = nw })
+						idleNow.Store(int64(nw))
+						idleChangedAt.Store(int64(now()) + 1)
+						idleSettledAt.Store(int64(now() + oldInterval + 10*time.Millisecond))
+						adminStarted.Store(0) // not a shutdown operation
+						simrt.Probe("idle_timeout_lowered_at_runtime")
 					case "close", "unexport":
 						var err error
 						inStop[ai].Store(1)
@@ -461,6 +504,9 @@ func genC17(r *simrt.Rand, tier string) any {
 		sc.Sched = SeqSched(r.Uint64())
 	}
 	sc.Sched.HorizonS = 3600
+	if r.Pct(30) {
+		sc.Allowed = [][]string{{"10.0.0.1", "10.0.0.2"}, {"10.0.0.0/31", "10.0.0.2/32"}}[r.Int(2)]
+	}
 	nc := 2 + r.Int(5)
 	for i := 0; i < nc; i++ {
 		c := C17Client{StartMs: []int{0, 0, 1, 50, 700, 3000}[r.Int(6)], Addr: fmt.Sprintf("10.0.0.%d:%d", 1+r.Int(3), 600+i)}
@@ -481,11 +527,23 @@ func genC17(r *simrt.Rand, tier string) any {
 		}
 		sc.Clients = append(sc.Clients, c)
 	}
-	if r.Pct(60) {
+	if r.Pct(20) && sc.IdleNs >= 1e9 {
+		// IdleTimeout lowered at runtime, followed by clients that go idle after the change has settled
+		sc.Admins = append(sc.Admins, []C17Admin{{AtMs: []int{10, 300}[r.Int(2)], Op: "lower-idle"}})
+		for i := range sc.Clients {
+			if r.Pct(60) {
+				sc.Clients[i].StartMs = 3500 + r.Int(500)
+				sc.Clients[i].Steps = []C17Step{{Op: "null"}, {Op: "idle", Ms: []int{700, 1500}[r.Int(2)]}, {Op: "null"}}
+			}
+		}
+	} else if r.Pct(60) {
 		na := 1 + r.Int(2)
 		for a := 0; a < na; a++ {
 			var ops []C17Admin
 			at := []int{0, 1, 40, 600, 2000, 9000}[r.Int(6)]
+			if r.Pct(40) {
+				at = sc.Clients[r.Int(len(sc.Clients))].StartMs // a shutdown racing with a connection being opened
+			}
 			for k := 0; k < 1+r.Int(2); k++ {
 				op := "stop"
 				if sc.Export {
@@ -567,7 +625,7 @@ func shrinkC17(scAny any) []any {
 
 func init() {
 	Register(&Prop{ID: "C17", Level: "exploration", Race: true,
-		Rule: "one case = 2-6 clients opening connections at drawn instants from 3 addresses and each performing 1-6 of NULL / MNT+GETATTR / LOOKUP+READDIR calls, idle periods of 1 ms-35 s and closes, against a server with MaxConnections 1-4 and IdleTimeout from {default, 1 ns, 1 ms, 200 ms, 1 s, 5 s}, started through NewServer+Listen or through AbsfsNFS.Export, 0-2 admin actors issuing Stop / Close / Unexport (also repeated and concurrently) at drawn instants, 0-2 backend calls stalled for 5 ms-7 s, every lock/channel/select/network interleaving decided by the seeded scheduler (random, PCT, sticky; 30% sequential), also built with -race; monitors: (a) connections answered at least once and closed on neither side never exceed MaxConnections, (b) connCount equals the tracked set, stays within 0..MaxConnections, covers every served open connection and is 0 once all clients have closed, (c) an answered connection idle for more than 2*IdleTimeout+100 ms has been closed by the server; an active one is not dropped, (d) after Stop returns nil no goroutine created in server.go is alive, the count is 0, later calls are never answered and the listener refuses; Stop only times out when a backend call is stalled beyond its 5 s grace, (e) after Close/Unexport of an exported server the handle table and both caches are empty (on return when nothing is stalled, and at quiescence), repeating Stop/Close/Unexport returns nil, (f) no panic, no server goroutine alive at the end of the run; non-trivial = at least two clients; distinct by event digest",
+		Rule: "one case = 2-6 clients opening connections at drawn instants from 3 addresses and each performing 1-6 of NULL / MNT+GETATTR / LOOKUP+READDIR calls, idle periods of 1 ms-35 s and closes, against a server with MaxConnections 1-4 and IdleTimeout from {default, 1 ns, 1 ms, 200 ms, 1 s, 5 s} (in 20% of those with >= 1 s lowered to 200 ms at runtime, idle periods then start after the reaper has had one old check interval to notice), AllowedIPs empty or excluding one of the three client addresses (30%), started through NewServer+Listen or through AbsfsNFS.Export, 0-2 admin actors issuing Stop / Close / Unexport (also repeated and concurrently) at drawn instants, 0-2 backend calls stalled for 5 ms-7 s, every lock/channel/select/network interleaving decided by the seeded scheduler (random, PCT, sticky; 30% sequential), also built with -race; monitors: (a) connections answered at least once and closed on neither side never exceed MaxConnections, (b) a client outside AllowedIPs is never served and never stays counted; connCount equals the tracked set, stays within 0..MaxConnections, covers every served open connection and is 0 once all clients have closed, (c) an answered connection idle for more than 2*IdleTimeout+100 ms has been closed by the server; an active one is not dropped, (d) after Stop returns nil no goroutine created in server.go is alive, the count is 0, later calls are never answered and the listener refuses; Stop only times out when a backend call is stalled beyond its 5 s grace, (e) after Close/Unexport of an exported server the handle table and both caches are empty (on return when nothing is stalled, and at quiescence), repeating Stop/Close/Unexport returns nil, (f) no panic, no server goroutine alive at the end of the run; non-trivial = at least two clients; distinct by event digest",
 		Gen:  genC17, New: func() any { return &C17Scn{} }, Run: runC17, Shrink: shrinkC17,
 		Real:    []string{"server.go accept loop, connection registry, idle reaper, Stop", "absnfs.go Close, operations.go Unexport/Export", "rpc/nfs handlers, worker pool, caches, handle table"},
 		Stubbed: seqStubbed})
